@@ -1096,6 +1096,9 @@ var c01Trusts = []c01Trust{
 	{"pinned", []string{"idp1"}},
 }
 
+// IdP metadata that publishes no usable signing key (an encryption key only / an empty signing descriptor): nothing may be accepted.
+var c01NoKeyTrusts = []c01Trust{{"metaenconly", nil}, {"metaemptysign", nil}}
+
 func rootsOf(t c01Trust) []*x509.Certificate {
 	var r []*x509.Certificate
 	for _, n := range t.roots {
@@ -1149,7 +1152,7 @@ func runC01(c *core.Ctx) {
 		trusts = c01Trusts
 	}
 	sps := map[string]*saml.ServiceProvider{}
-	for _, t := range c01Trusts {
+	for _, t := range append(append([]c01Trust{}, c01Trusts...), c01NoKeyTrusts...) {
 		sps[t.name] = harness.NewSP(harness.SPOpt{Trust: t.name})
 	}
 	seen := map[string]bool{}
@@ -1157,7 +1160,7 @@ func runC01(c *core.Ctx) {
 
 	evaluate := func(t *core.T, root *etree.Element, depth int, key string, trs []c01Trust, entries []string) {
 		doc := samlgen.Doc(root.Copy())
-		h := core.Hash12(string(doc))
+		h := core.Hash12(string(doc) + trs[0].name)
 		if seen[h] {
 			t.Outcome("duplicate-state")
 			return
@@ -1323,6 +1326,22 @@ func runC01(c *core.Ctx) {
 				}
 				_ = i1
 			}
+		}
+	}
+
+	c.Group("no-signing-key-published")
+	for _, in := range inits {
+		for _, op1 := range append([]c01Op{{"unchanged", func(*etree.Element, *c01Pool) bool { return true }}}, ops...) {
+			in, op1 := in, op1
+			key := "nokey/" + in.name + "/" + op1.name
+			c.Case(key, func(t *core.T) {
+				s1, ok := apply(in.doc, op1)
+				if !ok {
+					t.Outcome("op-not-applicable")
+					return
+				}
+				evaluate(t, s1, 1, key, c01NoKeyTrusts, entries)
+			})
 		}
 	}
 
